@@ -143,6 +143,16 @@ int main(int argc, char** argv) {
         size_t ret = cbor_serialize(it, ob, bufs[bi]);
         fprintf(vh_out, "{\"e\":\"serdef\",\"mt\":%d", mt);
         b8("n", c); b8("buf", bufs[bi]); b8("ret", ret); b8("size", cbor_serialized_size(it));
+        /* cbor_serialize_alloc: asks the allocator for at least the serialized size, or for nothing (the capped allocator refuses it anyway) */
+        {
+          unsigned char* ab = NULL;
+          size_t abs_ = 0;
+          va_reset_counters();
+          long rq0 = va.requests;
+          size_t aw = cbor_serialize_alloc(it, &ab, &abs_);
+          vh_kbool("acalled", va.requests > rq0); b8("areq", va.requests > rq0 ? va_last_req_size : 0); b8("aret", aw);
+          if (ab) va_free(ab);
+        }
         fputs("}\n", vh_out);
         free(oblk);
         if (mt == 2) cbor_bytestring_set_handle(it, h, 16); else it->metadata.string_metadata.length = 16;
